@@ -114,7 +114,11 @@ def layer_table_descs(tier, seed, limit):
     ex = export('layer_tables', tier)
     tabs, hcs = ex['layer_tables'], ex['high_classes']
     rng = random.Random(seed)
-    tabs = stratified(tabs, lambda t: (len(t['oktas']), t['msa']['kind'], tuple(sorted(set(t['oktas'])))), limit, rng)
+    if limit is not None and len(tabs) > limit:
+        # every okta sequence once without an MSA (the selection rule is a function of the sequence), the other MSA positions sampled
+        plain = [t for t in tabs if t['msa']['kind'] == 'none']
+        others = [t for t in tabs if t['msa']['kind'] != 'none']
+        tabs = plain + stratified(others, lambda t: (len(t['oktas']), t['msa']['kind'], t['msa']['i'], tuple(sorted(set(t['oktas'])))), limit, rng)
     hcs = sorted(hcs, key=lambda h: (h['h0'], h['high']))
     descs = []
     for i, t in enumerate(tabs):
@@ -286,3 +290,28 @@ def model_frames(cfg_text, prmset, tier, seed, limit):
     for i, (f, p) in enumerate(pairs):
         descs.append(model_frame_desc(f, p, f'F1:{i}'))
     return descs, total
+
+
+# ------------------------------------------------------------------------------------------------
+# F3c: base heights landing within a few hundredths of a foot of a coding boundary (spec: WMO!HCode)
+# ------------------------------------------------------------------------------------------------
+def boundary_descs(seed, n):
+    """ two adjacent integer heights (k-1, k) or (k, k+1) around a coding boundary k and a percentile such that
+    the interpolated base sits at k - 0.01 .. k - 0.06 or k + 0.01 .. (never exactly representable by rounding tricks) """
+    out = []
+    bounds = list(range(100, 10001, 100)) + list(range(11000, 100000, 1000))
+    for i in range(n):
+        rng = random.Random(f'F3c:{seed}:{i}')
+        k = rng.choice(bounds)
+        nh = rng.choice([2, 2, 3, 5])
+        side = rng.choice(['below', 'below', 'above'])
+        lo, hi = (k - 1, k) if side == 'below' else (k, k + 1)
+        p = rng.choice([99, 98, 97, 96, 95, 94, 90, 50]) if side == 'below' else rng.choice([1, 2, 5, 50])
+        rows = []
+        for j in range(nh):
+            rows.append(['a', -DT * (nh - 1 - j), hi if j == nh - 1 else lo, 1])
+        for j in range(rng.randint(0, 3)):
+            rows.append(['a', -DT * (nh + j), None, 0])
+        out.append({'family': 'F3c', 'name': f'F3c:{k}:{side}:p{p}:n{nh}', 'rows': rows, 'indomain': True,
+                    'prms': {'BASE_LVL_HEIGHT_PERC': p, 'MAX_HITS_OKTA0': 0, 'MAX_HOLES_OKTA8': 0}})
+    return out
